@@ -5,7 +5,7 @@ META = {
     'level_text': 'Proof (reals): Field.shift, executed on Tilt objects built by the real constructors, returns row = +z*x_angle*oversample/du_row and col = -z*y_angle*oversample/du_col for 0, 1 and 2 tilt elements (sum; order-independent), i.e. the x/y swap, the signs and the per-axis pixel scale of the statement; Tilt.shift and first-order DispersiveTilt.shift are pure translations, the dispersive displacement lies on the trace polynomial at the arc length the dispersion polynomial maps to the wavelength; Wavefront(tilt=) wraps the right Tilt; Plane.multiply hands every recorded tilt of a segment (after one or two fits) to that segment\'s fields; the phase identity "OPD ramp = kernel shifted by s = z t os/du on the same axis"; propagate_dft applies the full displacement (integer + sub-pixel) to the evaluated coordinates (C02 clause, re-verified here). fit_tilt (numpy lstsq) and the end-to-end agreement of the four representations are bounded native stand-ins.',
     'level_note': 'np.linalg.lstsq and scipy root finding / quadrature (dispersive order > 1) are outside the verifier: fit_tilt is covered by a bounded native stand-in only. sqrt uninterpreted with s*s = x. A2 reals.',
 }
-FUNCTIONS = ['lentil.field.Field.shift', 'lentil.propagate.propagate_dft', 'lentil.propagate._dft_alpha',
+FUNCTIONS = ['lentil.field.Field.shift', 'lentil.propagate.propagate_dft', 'lentil.propagate.propagate_dft#2', 'lentil.propagate._dft_alpha',
              'lentil.plane.Plane.multiply#fitted-tilts', 'lentil.fourier.dft2', 'lentil.field.Field.__mul__']
 LEMMAS = _pl.tilt_lemmas()
 
@@ -14,4 +14,4 @@ def bounded(tier, seed):
     from lvc.run import run_bounded
     return run_bounded('bounded_C04.py', tier, seed)
 
-SHARDS = {'lentil.plane.Plane.multiply#fitted-tilts': 6}
+SHARDS = {'lentil.plane.Plane.multiply#fitted-tilts': 6, 'lentil.propagate.propagate_dft#2': 6}
